@@ -203,7 +203,8 @@ class Index:
                         self.senses[sk]['frames'].append((sp, f['subcategorizationFrame']))
 
     # -- transcript ---------------------------------------------------------
-    def transcript(self, S, default_mode=False, reltypes=(), expanded=()):
+    def transcript(self, S, default_mode=False, reltypes=(), expanded=(), forms=()):
+        search_forms = tuple(forms)
         st = self.store
         S = list(S)
         T = {'lexicons': {}, 'words': {}, 'senses': {}, 'synsets': {}}
@@ -369,6 +370,30 @@ class Index:
             else:
                 ilis[('e', o[0])] = [o[0], o[1], o[2]]
         T['ilis'] = sorted(ilis.values(), key=repr)
+        if search_forms:
+            # exact form search (generated forms are already in normal form): a word form is visible
+            # when the lexicon that defines it is selected; senses and synsets are found through the
+            # selected senses of such entries
+            sel = set(S)
+
+            def visible(wk):
+                wrec = self.words[wk]
+                e = wrec['doc']
+                fs = []
+                if wrec['lex'] in sel:
+                    fs.append(e['lemma']['writtenForm'])
+                    fs += [f['writtenForm'] for f in e.get('forms', [])]
+                fs += [f['writtenForm'] for (xsp, i, f) in wrec['xforms'] if xsp in sel]
+                return fs
+            vis = {wk: visible(wk) for wk in self.words}
+            T['search'] = {}
+            for q in search_forms:
+                ws = sorted(wk for wk, wrec in self.words.items() if wrec['lex'] in sel and q in vis[wk])
+                ss_ = sorted(sk for sk, srec in self.senses.items() if srec['lex'] in sel and q in vis[srec['word']])
+                syn = sorted({srec['synset'] for sk, srec in self.senses.items()
+                              if srec['lex'] in sel and q in vis[srec['word']]
+                              and srec['synset'].split('|', 1)[0] in sel})
+                T['search'][q] = [ws, ss_, syn]
         return T, unordered
 
 
